@@ -31,6 +31,7 @@ NCPU = min(16, os.cpu_count() or 4)
 REALISTIC = ("18015.3", "1000000")       # W is water (18.0153 g/mol, 1 g/mL), volumes of ~0.1 L
 DECIMAL = ("2000", "20000")              # 2 mL and 20 mmol per model unit (W: 100 g/mol): lattice values with 2^k denominators are
                                          # short decimals and stay in the range where the library's 1e-10 rounding is effective
+TINY = ("36.0306", "2")                  # 36 uL / 2 umol per unit: micro-scale amounts
 BIG = ("1801530", "100000000")           # 1.8 L / 100 mol per unit: stays far above the rounding quantum of every storage configuration
 
 
@@ -251,6 +252,12 @@ def plan(prop, tier, seed):
                        lab_leg("LabSOL", 1, 2 if q else 4, BIG, seed, env_extra=env, tag=cn),
                        recipe_leg("RecipeProg", 2 if q else 3, 1 if q else 8, BIG, seed, env_extra=env, tag=cn),
                        units_leg(BIG, seed, env_extra=env, tag=cn)]
+                if "mol" in cn.split("_")[1:2] or cn.startswith("L_"):
+                    # micro-scale amounts under coarse storage units: only verdicts carry weight there (state comparisons
+                    # fall inside the absolute tolerance), which is where a threshold expressed in storage units shows
+                    e2 = dict(env, VERIF_SKIP_ADMISSIBLE="1")
+                    out.append(lab_leg("LabCC", 1, 1, TINY, seed, env_extra=e2, tag=cn + "tiny"))
+                    out.append(lab_leg("LabCF", 1, 1, TINY, seed, env_extra=e2, tag=cn + "tiny"))
                 for leg in out:
                     leg["config"] = cn
                 return out
@@ -324,6 +331,12 @@ def conclude(prop, tier, seed, legs, wall):
         for sh in leg["shards"]:
             if prop == "C18":       # conformance to the one specification under every configuration IS independence
                 cn = leg.get("config", leg["params"].get("tag"))
+                if str(leg["params"].get("tag", "")).endswith("tiny"):
+                    # micro-scale legs: only refusal verdicts with a wide margin are judged (see plan())
+                    keep = lambda pr, key: pr == "C03" and key.get("clause") == "infeasible_accepted"
+                    sh["violation_counts"] = [vc for vc in sh["violation_counts"] if keep(vc["property"], vc["class_key"])]
+                    sh["violations"] = [v for v in sh["violations"] if keep(v["property"], v["class_key"])]
+                    sh["evaluated"] = {"C03": sh["evaluated"].get("C03", 0)}
                 for vc in sh["violation_counts"]:
                     vc["class_key"] = dict(vc["class_key"], config=cn, orig_property=vc["property"])
                     vc["property"] = "C18"
